@@ -2,6 +2,7 @@ use crate::common::*;
 use serde_json::Value;
 
 pub mod c01;
+pub mod c04b;
 pub mod c08;
 pub mod c09;
 pub mod c10;
